@@ -179,6 +179,9 @@ func guard(fn func()) (fail *Failure) {
 	defer func() {
 		if r := recover(); r != nil {
 			st := string(debug.Stack())
+			if os.Getenv("VERIF_STACK") != "" {
+				fmt.Fprintf(os.Stderr, "PANIC %v\n%s\n", r, st)
+			}
 			kind := "panic"
 			if _, ok := r.(vsched.LatchLeak); ok {
 				kind = "latch-leak"
